@@ -96,6 +96,17 @@ type WF struct {
 	Fuel   int         `json:"fuel"`           // leaf visits before every post answers "halt"
 	Runs   int         `json:"runs,omitempty"` // sequential runs of the same objects (default 1)
 	Inject []Injection `json:"inject,omitempty"`
+	// BehOf maps a leaf node index to the index of the leaf whose behaviour (scripts and
+	// visit counter) it shares; nil = identity. Used by C10's flattening, where several
+	// fresh wrapper nodes stand for occurrences of one original leaf.
+	BehOf []int `json:"beh_of,omitempty"`
+}
+
+func (w *WF) beh(i int) int {
+	if i < len(w.BehOf) && w.BehOf[i] >= 0 {
+		return w.BehOf[i]
+	}
+	return i
 }
 
 const HaltAction = "halt" // reserved, never connected by any generator
@@ -318,7 +329,7 @@ func newWfExec(sc *WF) *wfExec {
 	x.nodes = make([]flyt.Node, len(sc.Nodes))
 	for i, ns := range sc.Nodes {
 		if ns.Leaf != nil {
-			x.nodes[i] = x.buildLeaf(i, ns.Leaf)
+			x.nodes[i] = x.buildLeaf(sc.beh(i), ns.Leaf)
 		} else {
 			f := flyt.NewFlow(x.nodes[ns.Flow.Start])
 			for _, c := range ns.Flow.Conns {
@@ -676,6 +687,9 @@ type modelRun struct {
 	EndEv   int    // index into Trace of the callback whose error ended the run (when !OK)
 	Path    []int  // leaves whose post was entered, in order
 	Visited []int  // leaves in visit (prep) order
+	// InnerEnds counts completions of a flow used as a member of another flow;
+	// InnerBranch those on which the parent followed a non-default connection.
+	InnerEnds, InnerBranch int
 }
 
 type wfModel struct {
@@ -703,7 +717,8 @@ func (m *wfModel) emit(e MEv) int {
 func (m *wfModel) node(i int) (string, bool) {
 	ns := m.sc.Nodes[i]
 	if ns.Leaf != nil {
-		return m.leaf(i, ns.Leaf)
+		b := m.sc.beh(i)
+		return m.leaf(b, m.sc.Nodes[b].Leaf)
 	}
 	f := ns.Flow
 	cur := f.Start
@@ -719,6 +734,12 @@ func (m *wfModel) node(i int) (string, bool) {
 		for _, c := range f.Conns {
 			if c.From == cur && c.Action == a {
 				next, found = c.To, true
+			}
+		}
+		if m.sc.Nodes[cur].Flow != nil {
+			m.out.InnerEnds++
+			if found && next >= 0 && a != string(flyt.DefaultAction) {
+				m.out.InnerBranch++
 			}
 		}
 		if !found || next < 0 {
